@@ -9,6 +9,8 @@ from . import rtok, extract, spec as specmod
 from .extract import AnchorLost
 
 WORLD_PARAM = 'Tracked(w): Tracked<&mut World>'
+MONO_POST = 'final(w).faults >= old(w).faults && final(w).tolerated >= old(w).tolerated'
+MONO_INV = 'w.faults >= old(w).faults && w.tolerated >= old(w).tolerated'
 WORLD_ARG = 'Tracked(w)'
 
 
@@ -650,6 +652,16 @@ def build_fn(fs, repo, effectful, table_keys, canary=False):
 
     toks = rtok.lex(text)
     st = rtok.sig(toks)
+    # A-monotone (auto): the failure counters of the ghost world only grow.  Every function that holds the mutable world token gets the
+    # postcondition, every loop in it the invariant; trusted stand-ins get the same clause injected by driver.inject_monotone.
+    mut_world = (not fs.noworld and not sliced) or (sliced and 'Tracked<&mut World>' in text.split('{', 1)[0])
+    if mut_world:
+        fs.ensures = list(fs.ensures) + [specmod.Clause(['C04'], MONO_POST, 'ensures', 'auto-monotone')]
+        if not fs.external:
+            _fo = next(i for i, t in enumerate(st) if t[1] == '{')
+            for n in range(1, len(find_loops(st, _fo + 1, len(st) - 1)) + 1):
+                lp = fs.loops.setdefault(n, specmod.Loop(n))
+                lp.invariants = list(lp.invariants) + [specmod.Clause(['C04'], MONO_INV, 'invariant', 'auto-monotone-loop')]
     ins = []   # (offset, seq, text, origin)
     seq = [0]
 
